@@ -650,8 +650,13 @@ class QGen:
             self.labels.add("Sum")
             return (f"{r[0]}.Sum()", r[1])
         if k == "minmax":
-            # Max over non-negative / Min over non-positive values only (the 0 seed is a recorded finding)
             v = self.newvar(scope, "v")
+            if self.chance(1, 2):
+                # values of any sign: the maximum of negative numbers is negative
+                how = self.pick(["Max", "Min"])
+                self.labels.add(how)
+                self.labels.add("MinMax-any-sign")
+                return (f"{r[0]}.{how}()", "double")
             if self.chance(1, 2):
                 self.labels.add("Max")
                 return (f"{r[0]}.Select(lambda {v}: abs({v})).Max()", "double")
